@@ -28,6 +28,7 @@ type Step struct {
 	Fine bool                         `json:"fine"`
 	Ch   map[string]map[string]string `json:"ch"`
 	Auto bool                         `json:"auto"` // chosen by the drain, not by the behaviour
+	Pol  string                       `json:"pol"`  // drain: "" seeded random | newest | oldest (which pending work goes first)
 }
 
 // Scenario is what TLC exports: constants of the world plus the behaviour.
@@ -183,7 +184,7 @@ func (w *World) Step(st Step) error {
 		if max <= 0 {
 			max = 3000
 		}
-		spin, derr := w.Drain(max)
+		spin, derr := w.DrainWith(max, st.Pol)
 		if derr != nil {
 			return derr
 		}
